@@ -31,6 +31,10 @@ class NodeError(ValueError):
     pass
 
 
+import collections
+Point = collections.namedtuple("Point", "x y")
+
+
 def gen_tree(r, depth, counter, side=None):
     counter[0] += 1
     nid = counter[0]
@@ -70,16 +74,16 @@ class World:
 def run_local(root):
     w = World()
 
-    def run(t, value, ref, **kw):
+    def run(t, value, ref, pt=None, fn=None, **kw):
         w.log.append(t["id"])
-        w.shapes.append((t["id"], canon(value), list(ref), sorted(kw.items())))
+        w.shapes.append((t["id"], canon(value), list(ref), sorted(kw.items()), (pt.x, pt.y, pt.__class__.__name__) if pt is not None else None, fn(3) if fn is not None else None))
         ref.append(t["id"])                     # a change through the reference is a change to the caller's object
         acc = 0
         for k, c in t["kids"]:
             box = [k["id"] * 7]
             try:
                 kwargs = {"extra": k["id"], "flag": True} if k["kw"] else {}
-                v = run(k, w.payload(k), box, **kwargs)
+                v = run(k, w.payload(k), box, Point(k["id"], -1), (lambda z, kid=k["id"]: z + kid), **kwargs)
                 acc += v
                 assert box[-1] == k["id"]
             except ValueError as e:
@@ -109,23 +113,24 @@ def run_remote(root):
 
     def make_service(side):
         class Svc(rpyc.Service):
-            def exposed_run(self, nid, value, ref, **kw):
-                return run(trees[nid], side, value, ref, **kw)
+            def exposed_run(self, nid, value, ref, pt=None, fn=None, **kw):
+                return run(trees[nid], side, value, ref, pt, fn, **kw)
         return Svc()
 
-    def run(t, side, value, ref, **kw):
+    def run(t, side, value, ref, pt=None, fn=None, **kw):
         w.log.append(t["id"])
-        w.shapes.append((t["id"], canon(value), list(ref), sorted(kw.items())))
+        w.shapes.append((t["id"], canon(value), list(ref), sorted(kw.items()), (pt.x, pt.y, pt.__class__.__name__) if pt is not None else None, fn(3) if fn is not None else None))
         ref.append(t["id"])
         acc = 0
         for k, c in t["kids"]:
             box = [k["id"] * 7]
             try:
                 kwargs = {"extra": k["id"], "flag": True} if k["kw"] else {}
+                pt, fn = Point(k["id"], -1), (lambda z, kid=k["id"]: z + kid)
                 if k["side"] == side:
-                    v = run(k, side, w.payload(k), box, **kwargs)
+                    v = run(k, side, w.payload(k), box, pt, fn, **kwargs)
                 else:
-                    v = ends[side].root.run(k["id"], w.payload(k), box, **kwargs)
+                    v = ends[side].root.run(k["id"], w.payload(k), box, pt, fn, **kwargs)
                 acc += v
                 if box[-1] != k["id"]:
                     raise AssertionError("mutation through the reference did not reach the caller's object")
